@@ -386,6 +386,7 @@ def run(ctx):
     if si == 0:
         bus_forwarding(ctx, rng, 40 if quick else 400)
         hostile_names_through_bus(ctx)
+        scaling_probe(ctx)
 
     # F. memory, sampled
     if si == 0:
@@ -422,6 +423,57 @@ class cpu_guard:
         signal.setitimer(signal.ITIMER_VIRTUAL, 0)
         signal.signal(signal.SIGVTALRM, self._old)
         return et is CpuBudgetExceeded
+
+
+def scaling_probe(ctx):
+    """Work proportional to the length: decoding a message four times as long may take about four times the processor
+    time.  Measured in CPU time of this process (best of three, so load and collector pauses do not matter), on bodies
+    made of very many small nested containers; a ratio above 6 for a factor of 4 in length (bodies of 0.4 and 1.6 MB), confirmed by a second, more
+    careful measurement (linear code measures 3.9-4.1 here), is super-linear growth.  This sees what the step meter cannot: work inside C primitives that
+    grows with the input (copying the buffer once per container, say)."""
+    import time
+    shapes = {
+        'aay': lambda n: R.encode('aay', [[[] for _ in range(n)]], 0, True),
+        'aas': lambda n: R.encode('aas', [[['x'] for _ in range(n)]], 0, True),
+    }
+    todo = [(sig, mk, 3) for sig, mk in shapes.items()]
+    while todo:
+        sig, mk, reps = todo.pop(0)
+        times = []
+        sizes = []
+        for n in ((100000, 400000) if sig == 'aay' else (40000, 160000)):
+            body = mk(n)
+            hdr = RM.build(RM.SIGNAL, 9, {'path': '/a', 'member': 'M', 'interface': 'a.b'}, sig, [[]] if sig != 'a{sv}' else [[]])
+            # splice the big body under a header with the right lengths
+            e = '<'
+            raw = bytearray(hdr[:len(hdr) - len(R.encode(sig, [[]], 0, True))])
+            struct.pack_into(e + 'I', raw, 4, len(body))
+            raw = bytes(raw) + body
+            best = None
+            for _ in range(reps):
+                t0 = time.process_time()
+                try:
+                    MSG.parseMessage(raw, [])
+                except Exception as ex:
+                    ctx.report(None, 'scaling probe: a well-formed %d-byte %r message does not decode: %r' % (len(raw), sig, ex),
+                               {'sig': sig, 'n': n}, {'kind': 'scaling'})
+                    return
+                dt = time.process_time() - t0
+                best = dt if best is None else min(best, dt)
+            times.append(best)
+            sizes.append(len(raw))
+        ctx.count('evaluations', 6)
+        ctx.count('scaling_probes')
+        ratio = times[1] / max(times[0], 1e-6)
+        ctx.note('scaling_' + sig, {'bytes': sizes, 'cpu_seconds': [round(t, 4) for t in times], 'ratio': round(ratio, 2)})
+        if ratio > 6.0 and times[1] > 0.3 and reps == 3:
+            todo.insert(0, (sig, mk, 7))          # measure again, more carefully, before believing it
+            continue
+        if ratio > 6.0 and times[1] > 0.3:
+            ctx.report('superlinear-work', 'decoding %r: %d bytes take %.3f s of processor time, %d bytes take %.3f s - a factor '
+                       'of %.1f for 4 times the length' % (sig, sizes[0], times[0], sizes[1], times[1], ratio),
+                       {'sig': sig, 'bytes': sizes, 'cpu_seconds': times}, {'kind': 'scaling'})
+            return
 
 
 def hostile_names_through_bus(ctx):
